@@ -67,8 +67,8 @@ func ecmaGoroutines() (int, string) {
 }
 
 func Run(cfg fw.Config, rec *fw.Rec) {
-	rec.Rule = "14 non-terminating interpreted scripts (while/for with property, array and string operations, unbounded and mutual recursion, loops inside try/catch and try/finally, closures, binding mutation, emitting, looping getters of the returned object) x deadlines {already expired, 0, 1, 5, 20, 100, 300 ms} x {deadline, asynchronous cancel at a pseudo-random instant, cancel of a context that also has a far deadline, cancel of an ancestor context} x concurrency {1, 4, 16, 64} x {Interpreter.Exec, Spec.Walk with 3 error settings}; each call must return the timeout error no later than deadline + 10 s (hard bound; observed latencies reported), the walk must route it like any action error, and after each combination no goroutine with an interpreter frame may remain (polled up to 5 s); non-trivial = execution that was interrupted; distinct by (script, deadline, cancel mode, concurrency, via)"
-	rec.Required = []string{"interrupted", "interrupted_async_cancel", "interrupted_by_cancel_before_a_far_deadline", "routed_as_action_error", "no_goroutine_left", "concurrency_64", "already_expired", "no_goroutine_left_after_terminating_script_under_live_context"}
+	rec.Rule = "14 non-terminating interpreted scripts (while/for with property, array and string operations, unbounded and mutual recursion, loops inside try/catch and try/finally, closures, binding mutation, emitting, looping getters of the returned object) x deadlines {already expired, 0, 1, 5, 20, 100, 300 ms} x {deadline, asynchronous cancel at a pseudo-random instant, cancel of a context that also has a far deadline, cancel of an ancestor context} x concurrency {1, 4, 16, 64} x {Interpreter.Exec, Spec.Walk with 3 error settings, and with a spec-supplied error node that runs the same script as its action or guard}; each call must return the timeout error no later than deadline + 10 s (hard bound; observed latencies reported), the walk must route it like any action error, and after each combination no goroutine with an interpreter frame may remain (polled up to 5 s); non-trivial = execution that was interrupted; distinct by (script, deadline, cancel mode, concurrency, via)"
+	rec.Required = []string{"interrupted", "interrupted_async_cancel", "interrupted_by_cancel_before_a_far_deadline", "routed_as_action_error", "no_goroutine_left", "concurrency_64", "already_expired", "no_goroutine_left_after_terminating_script_under_live_context", "walk_returned_from_a_looping_error_node"}
 	rec.Assume = []string{"time is spent in interpreted code, not in one long built-in call", "hard bound deadline + 10 s; lateness below the bound is reported, not judged"}
 	interp := ecmascript.NewInterpreter()
 	var combos []combo
@@ -165,6 +165,7 @@ func Run(cfg fw.Config, rec *fw.Rec) {
 				var err error
 				var walked *core.Walked
 				settings := g % 3
+				ownErrorNode := settings == 0 && g%2 == 0 && c.Via == "walk"
 				var a *ref.ASpec
 				go func() {
 					defer close(done)
@@ -187,6 +188,16 @@ func Run(cfg fw.Config, rec *fw.Rec) {
 						a.ActionErrorBranches = true
 					case 2:
 						a.ActionErrorNode = "aerr"
+					}
+					if ownErrorNode {
+						// the spec's own error node runs the same non-terminating script, as an
+						// action or as a guard: the walk must not hang there either
+						loop := &ref.Prog{Ops: []ref.Op{{Op: "raw", V: srcOf[c.Script], K: "timeout", K2: "timeout"}}, Ret: "same"}
+						if g%4 == 0 {
+							a.Nodes["error"] = &ref.ANode{Action: loop, Branching: &ref.ABranching{Type: "bindings", Branches: []*ref.ABranch{{Target: "n2"}}}}
+						} else {
+							a.Nodes["error"] = &ref.ANode{Branching: &ref.ABranching{Type: "bindings", Branches: []*ref.ABranch{{Guard: loop, Target: "n2"}, {Target: "n2"}}}}
+						}
 					}
 					spec, cerr := a.Compiled(false, ref.NativeNilErr)
 					if cerr != nil {
@@ -252,6 +263,9 @@ func Run(cfg fw.Config, rec *fw.Rec) {
 						return
 					}
 					rec.Bucket("routed_as_action_error")
+					if ownErrorNode {
+						rec.Bucket("walk_returned_from_a_looping_error_node")
+					}
 				}
 				rec.Bucket("interrupted")
 				if c.Cancel == "async" {
